@@ -138,6 +138,9 @@ fn scenario_files<R: Rng>(rng: &mut R, quick: bool) -> (Vec<FileSpec>, &'static 
     let run: u32 = if rng.gen_bool(0.7) { u32::MAX } else { rng.gen_range(1..20000) };
     let mut ts: u32 = rng.gen();
     let mut serial = rng.gen_range(0..5u32);
+    // serial numbers are data, not an ordering: increasing (as the DAQ writes them), restarting in every
+    // file, decreasing, constant or arbitrary
+    let serial_mode = *[0u8, 0, 0, 1, 2, 3, 4].choose(rng).unwrap();
     let mut files = Vec::new();
     let mut t0 = 1_000_000 + rng.gen_range(0..1000u32);
     for _ in 0..nfiles {
@@ -177,7 +180,15 @@ fn scenario_files<R: Rng>(rng: &mut R, quick: bool) -> (Vec<FileSpec>, &'static 
                 _ => Event { id: 1, serial, ts: t0, banks: vec![trg_bank(ts, rng)] },
             };
             events.push(ev);
-            serial += 1;
+            serial = match serial_mode {
+                2 => serial.wrapping_sub(1),
+                3 => serial,
+                4 => rng.gen_range(0..1000),
+                _ => serial + 1,
+            };
+        }
+        if serial_mode == 1 {
+            serial = rng.gen_range(0..3);
         }
         let fin = t0 + rng.gen_range(0..50);
         files.push(FileSpec { init: t0, fin, ext: if rng.gen() { "mid" } else { "mid.lz4" }, run, events });
@@ -212,7 +223,10 @@ fn scenario_files<R: Rng>(rng: &mut R, quick: bool) -> (Vec<FileSpec>, &'static 
         }
         2 => {
             let k = rng.gen_range(0..nfiles);
-            files[k].ext = *["gz", "midd", "mid.lz", ""].choose(rng).unwrap();
+            // unknown extensions, among them names that merely END in the letters of a known one ("~name" = the
+            // whole file name, without a dot)
+            files[k].ext = *["gz", "midd", "mid.lz", "", "xmid", "amid", "mid.zlz4", "zlz4", "MID", "Mid", "mid.LZ4", "lz4x", "mid.gz",
+                             "~pyramid", "~runmid", "~datalz4", "mid_", "mid.lz4.bak"].choose(rng).unwrap();
             "bad-ext"
         }
         _ => "none",
@@ -273,11 +287,18 @@ pub fn run(runner: &mut Runner, bindir: &Path, work: &Path, seed: u64, count: u6
             std::fs::create_dir_all(work).unwrap();
             let mut paths: Vec<PathBuf> = Vec::new();
             for (k, f) in files.iter().enumerate() {
-                let name = if f.ext.is_empty() { format!("run{k}") } else { format!("run{k}.{}", f.ext) };
+                let name = if f.ext.is_empty() {
+                    format!("run{k}")
+                } else if let Some(whole) = f.ext.strip_prefix('~') {
+                    format!("R{k}_{whole}")
+                } else {
+                    format!("run{k}.{}", f.ext)
+                };
                 let p = work.join(name);
                 let bytes = file_bytes(f.run, f.init, f.fin, &f.events);
-                if f.ext == "mid.lz4" {
-                    save(&p, &bytes);
+                // the content follows what the name suggests (so that a lenient extension rule would get through)
+                if f.ext.to_ascii_lowercase().ends_with("lz4") {
+                    save_lz4(&p, &bytes);
                 } else {
                     std::fs::write(&p, &bytes).unwrap();
                 }
